@@ -90,7 +90,11 @@ class Registry(object):
     @staticmethod
     def args_fit(ct, args):
         from .sorts import SeqT, RefT, NONE, MapT, SetT, PyVal
+        from .sorts import PyStarSeq
         params = [p for p in ct.params if not p[0].startswith('*')]
+        has_star = any(p[0].startswith('*') and not p[0].startswith('**') for p in ct.params)
+        if not has_star and (len(args) > len(params) - 1 or any(isinstance(a, PyStarSeq) for a in args)):
+            return False                     # more positional values (or a starred sequence) than the variant has parameters for
         for p, a in zip(params[1:], args):
             ps, as_ = p[1], getattr(a, 'sort', None)
             if ps is None or isinstance(ps, PyVal) or as_ is None:
